@@ -39,6 +39,22 @@ def gen_domain(rng):
         lo = float(rng.randrange(-1000, 1000))
         hi = lo + rng.choice([1, 2, 3, 7, 10, 24, 60, 100, 365, 1000])
         tag = "integers"
+    elif r < 0.93:
+        # symmetric around zero / an end exactly zero / span an exact power of ten
+        k = rng.randrange(-6, 9)
+        mode = rng.choice(["sym", "zero-end", "pow10", "unit"])
+        if mode == "sym":
+            v = rng.choice([1, 2, 5, 3.7]) * 10.0 ** k
+            lo, hi = -v, v
+        elif mode == "zero-end":
+            v = rng.choice([1, 2, 5, 3.7]) * 10.0 ** k
+            lo, hi = (0.0, v) if rng.random() < 0.5 else (-v, 0.0)
+        elif mode == "pow10":
+            lo = rng.choice([0.0, 10.0 ** k, -3 * 10.0 ** k])
+            hi = lo + 10.0 ** k
+        else:
+            lo, hi = 0.0, 1.0
+        tag = "integers"
     else:
         # narrow span far from zero (at the guard)
         mag = 10 ** rng.uniform(0, 9)
